@@ -26,8 +26,12 @@ DEBUG_AREAS = ['sighash', 'signing', 'segwit', 'taproot']
 
 @st.composite
 def cases(draw):
-    kind = draw(st.integers(0, 9))
-    if kind < 5:
+    kind = draw(st.integers(0, 10))
+    if kind == 10:
+        # pay-to-script-hash shaped script with the redeem script as the last stack ARGUMENT (the arguments must be in place when the session is set up)
+        c = draw(c01.p2sh_shape_cases())
+        script, stack = c['script'], c['stack']
+    elif kind < 5:
         script, stack = draw(G.grammar_script(with_sig=False))
     elif kind < 9:
         c = draw(c01.operand_cases())
